@@ -149,24 +149,41 @@ Inductive c04_verdict := V_ok | V_known (what : nat) | V_bad.
 Definition drops_accessor (d : cdecl) (name : string) (acc : mkind) : bool :=
   match acc with
   | MGet | MSet | MDel =>
-      existsb (fun m => String.eqb (md_name m) name && negb (md_inherit m)
+      existsb (fun m => String.eqb (md_name m) name && match md_inherit m with None => true | Some _ => false end
                         && match md_kind m with MGet | MSet | MDel => true | _ => false end) (cd_members d)
       && negb (existsb (fun m => String.eqb (md_name m) name && acc_matches acc (md_kind m)) (cd_members d))
   | _ => false
   end.
 
-Fixpoint after_gap (decls : list cdecl) (name : string) (acc : mkind) (mro : list nat) : list nat :=
+(** D23, second form: a class with several bases re-defines the property on one base's property
+    ([@Base.p.setter]) and takes this accessor over from that base as the very function object: what the
+    other bases declare for the accessor is not applied to it (the repair of D22 leaves the shared object alone). *)
+Definition takes_by_identity (d : cdecl) (name : string) (acc : mkind) : bool :=
+  match acc with
+  | MGet | MSet | MDel =>
+      Nat.ltb 1 (List.length (cd_bases d))
+      && existsb (fun m => String.eqb (md_name m) name && match md_inherit m with Some _ => true | None => false end) (cd_members d)
+      && negb (existsb (fun m => String.eqb (md_name m) name && match md_inherit m with None => true | Some _ => false end) (cd_members d))
+      && negb (existsb (fun m => String.eqb (md_name m) name && acc_matches acc (md_kind m)) (cd_members d))
+  | _ => false
+  end.
+
+(** the ancestors of the first class on the resolution order that drops the accessor: what they declare for it is
+    reachable through that class only, and lost there (what other bases declare is still collected) *)
+Fixpoint after_gap (decls : list cdecl) (mro_of_class : nat -> list nat) (name : string) (acc : mkind) (mro : list nat)
+  : list nat :=
   match mro with
   | [] => []
   | c :: rest => match nth_error decls c with
-                 | Some d => if drops_accessor d name acc then rest else after_gap decls name acc rest
-                 | None => after_gap decls name acc rest
+                 | Some d => if drops_accessor d name acc then tl (mro_of_class c)
+                             else after_gap decls mro_of_class name acc rest
+                 | None => after_gap decls mro_of_class name acc rest
                  end
   end.
 
 Definition above_gap_ids (decls : list cdecl) (mro : nat -> list nat) (p : nat) (name : string) (acc : mkind)
   : list Z * list Z * list Z :=
-  let cs := after_gap decls name acc (mro p) in
+  let cs := after_gap decls mro name acc (mro p) in
   let ms := flat_map (fun c => match nth_error decls c with
                                | Some d => match own_member d name acc with Some m => [m] | None => [] end
                                | None => [] end) cs in
@@ -194,20 +211,32 @@ Definition check_member_view (decls : list cdecl) (mro : nat -> list nat) (k : n
                    else declared_snaps decls mro p name acc in
       let '(gap_pre, gap_post, gap_snaps) := above_gap_ids decls mro p name acc in
       let gap_class :=
-        negb ctor && negb (is_nil (after_gap decls name acc (mro p))) &&
+        negb ctor && negb (is_nil (after_gap decls mro name acc (mro p))) &&
         (* nothing is shown that was not declared, and whatever is missing was declared above the gap *)
         zsubset (fv_post v) posts && zsubset (fv_snaps v) snaps && zsubset (List.concat (fv_pre v)) (List.concat groups) &&
         zsubset (filter (fun x => negb (zmem x (fv_post v))) posts) gap_post &&
         zsubset (filter (fun x => negb (zmem x (fv_snaps v))) snaps) gap_snaps &&
         zsubset (filter (fun x => negb (zmem x (List.concat (fv_pre v)))) (List.concat groups)) gap_pre &&
         negb (zset_eqb (fv_post v) posts && zset_eqb (fv_snaps v) snaps && gset_eqb (fv_pre v) groups) in
-      if gap_class then V_known 1 else
-      if negb (zset_eqb (fv_post v) posts && zset_eqb (fv_snaps v) snaps) then V_bad
-      else if negb ctor && accept_all decls mro p name acc
-           then (if is_nil (fv_pre v) then V_ok
-                 else if gset_eqb (fv_pre v) groups then V_known 0    (* kf_C04_accept_all: several bases, one without preconditions *)
-                 else V_bad)
-      else if gset_eqb (fv_pre v) groups then V_ok else V_bad
+      let ident_class :=
+        negb ctor
+        && existsb (fun c => match nth_error decls c with Some d => takes_by_identity d name acc | None => false end) (mro k)
+        (* nothing is shown that no class of the resolution order declared *)
+        && zsubset (fv_post v) (declared_posts decls mro k name acc)
+        && zsubset (fv_snaps v) (declared_snaps decls mro k name acc)
+        && zsubset (List.concat (fv_pre v)) (List.concat (declared_groups decls mro k name acc)) in
+      let verdict :=
+        if gap_class then V_known 1 else
+        if negb (zset_eqb (fv_post v) posts && zset_eqb (fv_snaps v) snaps) then V_bad
+        else if negb ctor && accept_all decls mro p name acc
+             then (if is_nil (fv_pre v) then V_ok
+                   else if gset_eqb (fv_pre v) groups then V_known 0    (* kf_C04_accept_all: several bases, one without preconditions *)
+                   else V_bad)
+        else if gset_eqb (fv_pre v) groups then V_ok else V_bad in
+      match verdict with
+      | V_bad => if ident_class then V_known 1 else V_bad
+      | x => x
+      end
   end.
 
 Definition worst (a b : c04_verdict) : c04_verdict :=
@@ -498,3 +527,113 @@ Definition spec_C03_selection_ (strict : bool) (c : ecase) (wm : world) (h : lis
     class whose own __new__ is wrapped: invariants are evaluated between __new__ and __init__); 2 = violated *)
 Definition spec_C03_selection_code (c : ecase) (wm : world) (h : list (option string * wview)) : Z :=
   if spec_C03_selection_ true c wm h then 0%Z else if spec_C03_selection_ false c wm h then 1%Z else 2%Z.
+
+
+(** ** C18 / C03: the two event lists a class shows are the enabled invariants of its resolution order that were
+    declared for that event (what the wrappers evaluate around calls and after attribute assignments) *)
+Definition spec_C18_invlists (c : ecase) (wm : world) (h : list (option string * wview)) : bool :=
+  let decls := class_decls (e_ops c) in
+  let mro := fun k => mro_of wm k in
+  match last h (None, empty_view) with
+  | (_, final) =>
+      forallb (fun kc =>
+                 let k := fst kc in
+                 if negb (is_live wm k) then true else
+                 let all_meta := forallb (fun j => match get_class wm j with Some co => co_meta co | None => false end) (mro k) in
+                 (* hierarchies built on the contract-inheriting metaclass (a plain sub-class of a decorated plain class
+                    appends to its base's lists: outside the properties' scope) *)
+                 if negb all_meta then true else
+                 let invs := declared_inv_decls decls mro k in
+                 zset_eqb (cv_invs_call (snd kc)) (map (fun i => cid (id_contract i)) (filter (fun i => on_call (id_check_on i)) invs))
+                 && zset_eqb (cv_invs_set (snd kc)) (map (fun i => cid (id_contract i)) (filter (fun i => on_setattr (id_check_on i)) invs)))
+              (combine (seq 0 (List.length (wv_classes final))) (wv_classes final))
+  end.
+
+(** ** C14: a member is of the kind it was declared with by the first class of the resolution order that declares
+    it (a static method stays a static method, also where it is only inherited) *)
+Definition declared_shape (decls : list cdecl) (mro : list nat) (name : string) : option mkind :=
+  match flat_map (fun c => match nth_error decls c with
+                           | Some d => match find (fun m => String.eqb (md_name m) name) (cd_members d) with
+                                       | Some m => [md_kind m]
+                                       | None => []
+                                       end
+                           | None => []
+                           end) mro with
+  | k :: _ => Some k
+  | [] => None
+  end.
+
+Definition shape_ok (name : string) (want : option mkind) (m : mview) : bool :=
+  match want, m with
+  | Some MStatic, VFunc MStatic _ | Some MClassM, VFunc MClassM _ => true
+  | Some MPlain, VFunc MPlain _ => true
+  | Some (MGet | MSet | MDel), VProp _ _ _ => true
+  | Some _, _ => false
+  | None, _ => true
+  end.
+
+Definition spec_C14_kinds (c : ecase) (wm : world) (h : list (option string * wview)) : bool :=
+  let decls := class_decls (e_ops c) in
+  match last h (None, empty_view) with
+  | (_, final) =>
+      forallb (fun kc =>
+                 let k := fst kc in
+                 if negb (is_live wm k) then true else
+                 forallb (fun nm => shape_ok (fst nm) (declared_shape decls (mro_of wm k) (fst nm)) (snd nm))
+                         (combine (e_names c) (cv_members (snd kc))))
+              (combine (seq 0 (List.length (wv_classes final))) (wv_classes final))
+  end.
+
+(** ** C16: the postconditions a member shows are those of its bases - base by base, in the order of the bases, each
+    base contributing the list of the definition it shows - followed by its own, in declaration order *)
+Section Order.
+  Variables (decls : list cdecl) (mro : nat -> list nat).
+
+  Fixpoint eff_posts (fuel : nat) (k : nat) (name : string) (acc : mkind) : list Z :=
+    match fuel with
+    | 0 => []
+    | S f =>
+        match provider decls mro k name acc with
+        | None => []
+        | Some p =>
+            match nth_error decls p with
+            | Some d =>
+                flat_map (fun b => eff_posts f b name acc) (cd_bases d)
+                ++ match own_member d name acc with Some m => own_post m | None => [] end
+            | None => []
+            end
+        end
+    end.
+End Order.
+
+Definition is_prefix_of_bases (shown expected : list Z) : bool := zl_eqb shown expected.
+
+Definition spec_C16_order (c : ecase) (wm : world) (final : wview) : bool :=
+  let decls := class_decls (e_ops c) in
+  let mro := fun k => mro_of wm k in
+  let all_meta := fun k => forallb (fun j => match get_class wm j with Some co => co_meta co | None => false end) (mro k) in
+  forallb (fun kc =>
+             let k := fst kc in
+             if negb (is_live wm k) || negb (all_meta k) then true else
+             forallb (fun nm =>
+                        let name := fst nm in
+                        let chk := fun acc v =>
+                          (* only where the set of contracts is as declared (C04): the order is then the bases' order *)
+                          match check_member_view decls mro k name acc v with
+                          | V_ok => if is_ctor name then true
+                                    else zset_eqb (fv_post v) (eff_posts decls mro (S (List.length decls)) k name acc)
+                                         && Nat.eqb (List.length (fv_post v))
+                                                    (List.length (eff_posts decls mro (S (List.length decls)) k name acc))
+                                         && is_prefix_of_bases (fv_post v) (eff_posts decls mro (S (List.length decls)) k name acc)
+                          | _ => true
+                          end in
+                        match snd nm with
+                        | VFunc kd v => chk kd v
+                        | VProp g s d =>
+                            (match g with Some v => chk MGet v | None => true end)
+                            && (match s with Some v => chk MSet v | None => true end)
+                            && (match d with Some v => chk MDel v | None => true end)
+                        | _ => true
+                        end)
+                     (combine (e_names c) (cv_members (snd kc))))
+          (combine (seq 0 (List.length (wv_classes final))) (wv_classes final)).
